@@ -59,6 +59,11 @@ func pyUntag(v any) any {
 			if i, err := strconv.ParseInt(s, 10, 64); err == nil {
 				return int(i)
 			}
+			// an integer literal no int64 holds: it denotes a float64 if one has exactly that value
+			// (this is how an integral double beyond int64 is written without exponent)
+			if f, err := strconv.ParseFloat(s, 64); err == nil && strconv.FormatFloat(f, 'f', -1, 64) == s {
+				return f // the shortest decimal spelling of that double, written without an exponent
+			}
 			return "bigint:" + s
 		}
 		if s, ok := x["$f"].(string); ok {
